@@ -275,6 +275,14 @@ def _value_objects_immutable(ctx: Context) -> None:
             scanned += 1
             ty = ctx.types.expr_type(n.value, f)
             cn = ty[1].name if ty and ty[0] == "cls" else None
+            if cn is None:
+                # isinstance narrowing anywhere in the function, and "another instance" inside the value classes themselves
+                for c in own_nodes(f.node):
+                    if isinstance(c, ast.Call) and isinstance(c.func, ast.Name) and c.func.id == "isinstance" and len(c.args) == 2 and norm(c.args[0]) == norm(n.value):
+                        names = [norm(e) for e in (c.args[1].elts if isinstance(c.args[1], ast.Tuple) else [c.args[1]])]
+                        cn = next((x for x in names if x in ("URL", "Origin")), cn)
+                if cn is None and f.cls is not None and f.cls.name in ("URL", "Origin") and n.attr in ("scheme", "host", "port", "target"):
+                    cn = f.cls.name
             by_name = norm(n.value).endswith((".url", "_url", ".origin", "_origin")) or norm(n.value) in ("url", "origin")
             if cn not in ("URL", "Origin") and not (cn is None and by_name and n.attr in ("scheme", "host", "port", "target")):
                 continue
